@@ -31,6 +31,8 @@ class ZeroLinearOperator(LinearOperator):
 
         self._dtype = dtype or torch.get_default_dtype()
         self._device = device or torch.device("cpu")
+        # keep dtype / device among the stored constructor arguments: clone() and friends re-invoke the constructor from them
+        self._nondifferentiable_kwargs.update(dtype=self._dtype, device=self._device)
 
     @property
     def dtype(self) -> Optional[torch.dtype]:
